@@ -15,6 +15,7 @@ import (
 	"strconv"
 	"strings"
 	"time"
+	"unicode/utf8"
 )
 
 // FilterFunc is a function that can be used as a filter
@@ -367,17 +368,17 @@ func (e *CoreExtension) filterSplit(value interface{}, args ...interface{}) (int
 
 	// Handle multiple character delimiters (split on any character in the delimiter)
 	if len(delimiter) > 1 {
-		// Convert delimiter string to a regex character class
-		pattern := "[" + regexp.QuoteMeta(delimiter) + "]"
-		re := regexp.MustCompile(pattern)
-
-		if limit > 0 {
-			// Manual split with limit
-			parts := re.Split(s, limit)
-			return parts, nil
+		var parts []string
+		for limit <= 0 || len(parts) < limit-1 {
+			i := strings.IndexAny(s, delimiter)
+			if i < 0 {
+				break
+			}
+			_, width := utf8.DecodeRuneInString(s[i:])
+			parts = append(parts, s[:i])
+			s = s[i+width:]
 		}
-
-		return re.Split(s, -1), nil
+		return append(parts, s), nil
 	}
 
 	// Simple single character delimiter
@@ -1492,7 +1493,7 @@ func (e *CoreExtension) filterReverse(value interface{}, args ...interface{}) (i
 		return string(runes), nil
 	case reflect.Array, reflect.Slice:
 		// Create a new slice with the same type
-		resultSlice := reflect.MakeSlice(rv.Type(), rv.Len(), rv.Len())
+		resultSlice := reflect.MakeSlice(reflect.SliceOf(rv.Type().Elem()), rv.Len(), rv.Len())
 		for i, j := 0, rv.Len()-1; j >= 0; i, j = i+1, j-1 {
 			resultSlice.Index(i).Set(rv.Index(j))
 		}
@@ -1650,7 +1651,7 @@ func (e *CoreExtension) filterSlice(value interface{}, args ...interface{}) (int
 			start = 0
 		}
 		if start >= count {
-			return reflect.MakeSlice(rv.Type(), 0, 0).Interface(), nil
+			return reflect.MakeSlice(reflect.SliceOf(rv.Type().Elem()), 0, 0).Interface(), nil
 		}
 
 		// Calculate end index
@@ -1669,7 +1670,7 @@ func (e *CoreExtension) filterSlice(value interface{}, args ...interface{}) (int
 		}
 
 		// Create a new slice with the same type
-		result := reflect.MakeSlice(rv.Type(), end-start, end-start)
+		result := reflect.MakeSlice(reflect.SliceOf(rv.Type().Elem()), end-start, end-start)
 		for i := start; i < end; i++ {
 			result.Index(i - start).Set(rv.Index(i))
 		}
@@ -1722,31 +1723,30 @@ func (e *CoreExtension) filterMerge(value interface{}, args ...interface{}) (int
 	// Handle merging arrays/slices
 	rv := reflect.ValueOf(value)
 	if rv.Kind() == reflect.Slice || rv.Kind() == reflect.Array {
-		result := reflect.MakeSlice(rv.Type(), rv.Len(), rv.Len())
-
-		// Copy original values
-		for i := 0; i < rv.Len(); i++ {
-			result.Index(i).Set(rv.Index(i))
-		}
-
-		// Add values from the arguments
+		// Keep the element type when every merged element fits it,
+		// otherwise fall back to a generic []interface{}
+		elemType := rv.Type().Elem()
+		total := rv.Len()
 		for _, arg := range args {
 			argRv := reflect.ValueOf(arg)
 			if argRv.Kind() == reflect.Slice || argRv.Kind() == reflect.Array {
-				// Create a new slice with expanded capacity
-				newResult := reflect.MakeSlice(rv.Type(), result.Len()+argRv.Len(), result.Len()+argRv.Len())
-
-				// Copy existing values
-				for i := 0; i < result.Len(); i++ {
-					newResult.Index(i).Set(result.Index(i))
+				total += argRv.Len()
+				if !argRv.Type().Elem().AssignableTo(elemType) {
+					elemType = reflect.TypeOf((*interface{})(nil)).Elem()
 				}
+			}
+		}
 
-				// Append the new values
+		result := reflect.MakeSlice(reflect.SliceOf(elemType), 0, total)
+		for i := 0; i < rv.Len(); i++ {
+			result = reflect.Append(result, rv.Index(i))
+		}
+		for _, arg := range args {
+			argRv := reflect.ValueOf(arg)
+			if argRv.Kind() == reflect.Slice || argRv.Kind() == reflect.Array {
 				for i := 0; i < argRv.Len(); i++ {
-					newResult.Index(result.Len() + i).Set(argRv.Index(i))
+					result = reflect.Append(result, argRv.Index(i))
 				}
-
-				result = newResult
 			}
 		}
 
@@ -1755,6 +1755,33 @@ func (e *CoreExtension) filterMerge(value interface{}, args ...interface{}) (int
 
 	// Handle merging maps
 	if rv.Kind() == reflect.Map {
+		// Keep the map type when every merged map fits it, otherwise
+		// fall back to a generic map[string]interface{}
+		sameType := true
+		for _, arg := range args {
+			argRv := reflect.ValueOf(arg)
+			if argRv.Kind() == reflect.Map &&
+				(!argRv.Type().Key().AssignableTo(rv.Type().Key()) || !argRv.Type().Elem().AssignableTo(rv.Type().Elem())) {
+				sameType = false
+			}
+		}
+
+		if !sameType {
+			generic := make(map[string]interface{}, rv.Len())
+			for _, key := range rv.MapKeys() {
+				generic[toString(key.Interface())] = rv.MapIndex(key).Interface()
+			}
+			for _, arg := range args {
+				argRv := reflect.ValueOf(arg)
+				if argRv.Kind() == reflect.Map {
+					for _, key := range argRv.MapKeys() {
+						generic[toString(key.Interface())] = argRv.MapIndex(key).Interface()
+					}
+				}
+			}
+			return generic, nil
+		}
+
 		// Create a new map with the same key and value types
 		resultMap := reflect.MakeMap(rv.Type())
 
@@ -1861,7 +1888,7 @@ func (e *CoreExtension) filterSort(value interface{}, args ...interface{}) (inte
 	// Try reflection for other types
 	rv := reflect.ValueOf(value)
 	if rv.Kind() == reflect.Slice || rv.Kind() == reflect.Array {
-		result := reflect.MakeSlice(rv.Type(), rv.Len(), rv.Len())
+		result := reflect.MakeSlice(reflect.SliceOf(rv.Type().Elem()), rv.Len(), rv.Len())
 		for i := 0; i < rv.Len(); i++ {
 			result.Index(i).Set(rv.Index(i))
 		}
